@@ -1,4 +1,616 @@
 /-
-C14 — placeholder (theorems follow)
+C14 — JSON serialisation round-trips grammars.
+Theorems about `Fggs.J.toJson` / `Fggs.J.fromJson` (FggsModel/Json.lean), the rule-level model of
+hrg_to_json / json_to_hrg.
 -/
 import FggsModel.Json
+import Mathlib.Tactic.Linarith
+import Mathlib.Data.List.Basic
+import Mathlib.Data.List.Nodup
+import Mathlib.Data.List.Forall2
+import Mathlib.Data.List.Sort
+import Mathlib.Data.String.Basic
+
+set_option linter.unusedSimpArgs false
+set_option linter.unusedVariables false
+
+namespace C14
+open Fggs Fggs.J
+
+/-- a well-formed rule: attachment and external positions are node positions; ids (keys) are unique -/
+structure Valid (r : Rule) : Prop where
+  att : ∀ e ∈ r.edges, ∀ v ∈ e.att, v < r.nodes.length
+  ext : ∀ v ∈ r.ext, v < r.nodes.length
+  nodeKeys : (r.nodes.map (·.key)).Nodup
+  edgeKeys : (r.edges.map (·.key)).Nodup
+
+/-- the fresh-id supply of the reloading side gives pairwise distinct keys that are not explicit ids of the rule
+(Python: `id(obj)` is unique among live objects and is an int, never equal to an explicit string id) -/
+structure FreshOk (fresh : Nat → String) (r : Rule) : Prop where
+  inj : ∀ i j, fresh i = fresh j → i = j
+  notNode : ∀ i, ∀ n ∈ r.nodes, n.explicit = true → fresh i ≠ n.key
+  notEdge : ∀ i, ∀ e ∈ r.edges, e.explicit = true → fresh i ≠ e.key
+
+
+/-! ### helpers: `mapM` in `Option` -/
+
+private theorem mapM_none_of_mem {α β} (f : α → Option β) (l : List α) (a : α) (ha : a ∈ l)
+    (hf : f a = none) : l.mapM f = none := by
+  induction l with
+  | nil => cases ha
+  | cons x xs ih =>
+    rw [List.mapM_cons]
+    rcases List.mem_cons.1 ha with rfl | h
+    · simp [hf]
+    · rw [ih h]; cases f x <;> simp
+
+private theorem mapM_eq_some {α β} (f : α → Option β) (l : List α) (l' : List β)
+    (h : l.mapM f = some l') : List.Forall₂ (fun a b => f a = some b) l l' := by
+  induction l generalizing l' with
+  | nil => simp at h; subst h; exact .nil
+  | cons x xs ih =>
+    rw [List.mapM_cons] at h
+    cases hx : f x with
+    | none => simp [hx] at h
+    | some y =>
+      cases hxs : xs.mapM f with
+      | none => simp [hx, hxs] at h
+      | some ys =>
+        simp [hx, hxs] at h; subst h
+        exact .cons hx (ih _ hxs)
+
+private theorem index?_none (n : Nat) (vi : Int) (hbad : vi < 0 ∨ (n : Int) ≤ vi) :
+    index? n vi = none := by
+  unfold index?
+  rw [if_neg]; omega
+
+private theorem index?_cast (n v : Nat) (h : v < n) : index? n (v : Int) = some v := by
+  unfold index?
+  rw [if_pos (by omega)]; simp
+
+private theorem index?_some (n : Nat) (vi : Int) (a : Nat) (h : index? n vi = some a) :
+    (a : Int) = vi ∧ a < n := by
+  unfold index? at h
+  split at h
+  · simp at h; omega
+  · cases h
+
+private theorem mapM_index_cast (n : Nat) (l : List Nat) (h : ∀ v ∈ l, v < n) :
+    (List.map (fun (v : Nat) => (v : Int)) l).mapM (index? n) = some l := by
+  induction l with
+  | nil => rfl
+  | cons x xs ih =>
+    have h1 := index?_cast n x (h x (by simp))
+    have h2 := ih (fun v hv => h v (by simp [hv]))
+    rw [List.map_cons, List.mapM_cons, h1, h2]
+    rfl
+
+private theorem mem_zipIdx_of_mem {α} (l : List α) (a : α) (h : a ∈ l) : ∃ k, (a, k) ∈ l.zipIdx := by
+  obtain ⟨k, hk, rfl⟩ := List.getElem_of_mem h
+  exact ⟨k, by simp [List.mem_zipIdx_iff_getElem?]⟩
+
+/-! ### helpers: the reader in closed form -/
+
+private def mkNodes (fresh : Nat → String) (j : JRule) : List RNode :=
+  (j.nodes.zipIdx).map (fun (n, k) =>
+    match n.id with
+    | some s => ⟨n.label, s, true⟩
+    | none => ⟨n.label, fresh k, false⟩)
+
+private def mkEdge (fresh : Nat → String) (n : Nat) : JEdge × Nat → Option REdge := fun (e, k) => do
+    let att ← e.att.mapM (index? n)
+    pure (match e.id with
+      | some s => (⟨e.label, att, s, true⟩ : REdge)
+      | none => ⟨e.label, att, fresh (n + k), false⟩)
+
+private theorem mkNodes_length (fresh : Nat → String) (j : JRule) :
+    (mkNodes fresh j).length = j.nodes.length := by
+  simp [mkNodes]
+
+private theorem fromJson_eq (fresh : Nat → String) (j : JRule) :
+    fromJson fresh j = (do
+      if !((mkNodes fresh j).map (·.key)).Nodup then none
+      let edges ← (j.edges.zipIdx).mapM (mkEdge fresh (mkNodes fresh j).length)
+      if !(edges.map (·.key)).Nodup then none
+      let ext ← j.ext.mapM (index? (mkNodes fresh j).length)
+      pure ⟨j.lhs, mkNodes fresh j, edges, ext⟩) := rfl
+
+private theorem fromJson_some_iff (fresh : Nat → String) (j : JRule) (r' : Rule) :
+    fromJson fresh j = some r' ↔
+      ((mkNodes fresh j).map (·.key)).Nodup ∧
+      ∃ edges, (j.edges.zipIdx).mapM (mkEdge fresh (mkNodes fresh j).length) = some edges ∧
+        (edges.map (·.key)).Nodup ∧
+        ∃ ext, j.ext.mapM (index? (mkNodes fresh j).length) = some ext ∧
+          r' = ⟨j.lhs, mkNodes fresh j, edges, ext⟩ := by
+  rw [fromJson_eq]
+  by_cases hN : ((mkNodes fresh j).map (·.key)).Nodup
+  · cases hE : (j.edges.zipIdx).mapM (mkEdge fresh (mkNodes fresh j).length) with
+    | none => simp [hN]
+    | some edges =>
+      by_cases hEN : (edges.map (·.key)).Nodup
+      · cases hX : j.ext.mapM (index? (mkNodes fresh j).length) with
+        | none => simp [hN]
+        | some ext => simp [hN, hEN]; exact eq_comm
+      · simp [hN, hEN]
+  · simp [hN]
+
+private theorem mkEdge_att_none (fresh : Nat → String) (n : Nat) (e : JEdge) (k : Nat)
+    (h : e.att.mapM (index? n) = none) : mkEdge fresh n (e, k) = none := by
+  simp [mkEdge, h]
+
+private theorem mkEdge_att_some (fresh : Nat → String) (n : Nat) (e : JEdge) (k : Nat) (att : List Nat)
+    (h : e.att.mapM (index? n) = some att) :
+    mkEdge fresh n (e, k) = some (match e.id with
+      | some s => (⟨e.label, att, s, true⟩ : REdge)
+      | none => ⟨e.label, att, fresh (n + k), false⟩) := by
+  simp [mkEdge, h]
+
+/-! ### helpers: the sort order -/
+
+private theorem keyLe_iff (a b : String) : keyLe a b = true ↔ a ≤ b := by
+  simp only [keyLe, Bool.not_eq_true', decide_eq_false_iff_not, not_lt]
+
+private theorem sortedPositions_length (keys : List String) :
+    (sortedPositions keys).length = keys.length := by
+  simp [sortedPositions]
+
+private theorem mem_sortedPositions (keys : List String) (p : Nat) :
+    p ∈ sortedPositions keys ↔ p < keys.length := by
+  simp [sortedPositions]
+
+private theorem sortedPositions_nodup (keys : List String) : (sortedPositions keys).Nodup := by
+  have h : (sortedPositions keys).Perm (List.range keys.length) := List.mergeSort_perm _ _
+  exact h.nodup_iff.2 List.nodup_range
+
+private theorem sortedPositions_pairwise (keys : List String) :
+    (sortedPositions keys).Pairwise
+      (fun i j => keyLe (keys[i]?.getD "") (keys[j]?.getD "") = true) := by
+  unfold sortedPositions
+  apply List.pairwise_mergeSort
+  · intro a b c hab hbc
+    rw [keyLe_iff] at *
+    exact le_trans hab hbc
+  · intro a b
+    rw [Bool.or_eq_true, keyLe_iff, keyLe_iff]
+    exact le_total _ _
+
+private theorem sortedPositions_of_pairwise (keys : List String)
+    (h : keys.Pairwise (fun a b => keyLe a b = true)) :
+    sortedPositions keys = List.range keys.length := by
+  unfold sortedPositions
+  apply List.mergeSort_of_pairwise
+  refine List.Pairwise.imp_of_mem ?_ List.pairwise_lt_range
+  intro i j hi hj hij
+  rw [List.mem_range] at hi hj
+  rw [List.pairwise_iff_getElem] at h
+  simpa [hi, hj] using h i j hi hj hij
+
+private theorem rank_range (n v : Nat) (hv : v < n) : rank (List.range n) v = v := by
+  unfold rank
+  rw [List.findIdx_eq (by simpa using hv)]
+  simp
+  omega
+
+private theorem map_range_getD {α β} (l : List α) (d : α) (f : α → β) :
+    (List.range l.length).map (fun p => f (l[p]?.getD d)) = l.map f := by
+  apply List.ext_getElem
+  · simp
+  · intro i h1 h2
+    simp at h1 h2
+    simp [h2]
+
+private theorem nodup_fresh_keys {α} (items : List α) (d : α) (key : α → String) (expl : α → Bool)
+    (ord : List Nat) (hnd : ord.Nodup) (hlt : ∀ p ∈ ord, p < items.length)
+    (fresh : Nat → String) (off : Nat) (inj : ∀ i j, fresh i = fresh j → i = j)
+    (notItem : ∀ i, ∀ a ∈ items, expl a = true → fresh i ≠ key a)
+    (hk : (items.map key).Nodup) :
+    ((ord.zipIdx).map (fun x => if expl (items[x.1]?.getD d) = true then key (items[x.1]?.getD d)
+      else fresh (off + x.2))).Nodup := by
+  have hz : ord.zipIdx.Nodup := by
+    apply List.Nodup.of_map Prod.fst
+    rw [List.zipIdx_map_fst]; exact hnd
+  refine List.Nodup.map_on ?_ hz
+  rintro ⟨p, k⟩ hx ⟨p', k'⟩ hy hxy
+  rw [List.mem_zipIdx_iff_getElem?] at hx hy
+  simp only at hx hy hxy
+  have hp := hlt p (List.mem_of_getElem? hx)
+  have hp' := hlt p' (List.mem_of_getElem? hy)
+  have hkk : k = k' → (p, k) = (p', k') := by
+    rintro rfl
+    rw [hx] at hy
+    simpa using hy
+  have hpp : p = p' → (p, k) = (p', k') := by
+    rintro rfl
+    apply hkk
+    have hk : k < ord.length := by
+      by_contra hc
+      rw [List.getElem?_eq_none (by omega)] at hx; cases hx
+    exact (List.getElem?_inj hk hnd).1 (hx.trans hy.symm)
+  rw [List.getElem?_eq_getElem hp, List.getElem?_eq_getElem hp'] at hxy
+  simp only [Option.getD_some] at hxy
+  by_cases h1 : expl items[p] = true <;> by_cases h2 : expl items[p'] = true
+  · rw [if_pos h1, if_pos h2] at hxy
+    apply hpp
+    have := hk.getElem_inj_iff (i := p) (j := p') (hi := by simpa using hp) (hj := by simpa using hp')
+    rw [List.getElem_map, List.getElem_map] at this
+    exact this.1 hxy
+  · rw [if_pos h1, if_neg h2] at hxy
+    exact absurd hxy.symm (notItem _ _ (List.getElem_mem hp) h1)
+  · rw [if_neg h1, if_pos h2] at hxy
+    exact absurd hxy (notItem _ _ (List.getElem_mem hp') h2)
+  · rw [if_neg h1, if_neg h2] at hxy
+    apply hkk
+    have := inj _ _ hxy
+    omega
+
+private theorem mapM_map_map_some {α β γ} (f : β → Option γ) (m : α → β) (g : α → γ) (l : List α)
+    (h : ∀ a ∈ l, f (m a) = some (g a)) : (l.map m).mapM f = some (l.map g) := by
+  induction l with
+  | nil => rfl
+  | cons x xs ih =>
+    have h1 := h x (by simp)
+    have h2 := ih (fun a ha => h a (by simp [ha]))
+    rw [List.map_cons, List.mapM_cons, h1, h2]; rfl
+
+/-! ### helpers: the writer followed by the reader, in closed form -/
+
+private theorem toJson_nodes (r : Rule) : (toJson r).nodes =
+    (sortedPositions (r.nodes.map (·.key))).map (fun p =>
+      (⟨(r.nodes[p]?.getD default).label,
+        if (r.nodes[p]?.getD default).explicit then some (r.nodes[p]?.getD default).key else none⟩ : JNode)) :=
+  rfl
+
+private theorem toJson_edges (r : Rule) : (toJson r).edges =
+    (sortedPositions (r.edges.map (·.key))).map (fun p =>
+      (⟨(r.edges[p]?.getD default).att.map
+          (fun v => (rank (sortedPositions (r.nodes.map (·.key))) v : Int)),
+        (r.edges[p]?.getD default).label,
+        if (r.edges[p]?.getD default).explicit then some (r.edges[p]?.getD default).key else none⟩ : JEdge)) :=
+  rfl
+
+private theorem toJson_ext (r : Rule) : (toJson r).ext =
+    r.ext.map (fun v => (rank (sortedPositions (r.nodes.map (·.key))) v : Int)) := rfl
+
+private theorem toJson_nodes_length (r : Rule) : (toJson r).nodes.length = r.nodes.length := by
+  simp [toJson_nodes, sortedPositions_length]
+
+private def nodeOf (fresh : Nat → String) (r : Rule) (x : Nat × Nat) : RNode :=
+  ⟨(r.nodes[x.1]?.getD default).label,
+   if (r.nodes[x.1]?.getD default).explicit then (r.nodes[x.1]?.getD default).key else fresh x.2,
+   (r.nodes[x.1]?.getD default).explicit⟩
+
+private def edgeOf (fresh : Nat → String) (r : Rule) (x : Nat × Nat) : REdge :=
+  ⟨(r.edges[x.1]?.getD default).label,
+   (r.edges[x.1]?.getD default).att.map (rank (sortedPositions (r.nodes.map (·.key)))),
+   if (r.edges[x.1]?.getD default).explicit then (r.edges[x.1]?.getD default).key
+     else fresh (r.nodes.length + x.2),
+   (r.edges[x.1]?.getD default).explicit⟩
+
+private theorem mkNodes_toJson (fresh : Nat → String) (r : Rule) :
+    mkNodes fresh (toJson r) =
+      ((sortedPositions (r.nodes.map (·.key))).zipIdx).map (nodeOf fresh r) := by
+  unfold mkNodes
+  rw [toJson_nodes, List.zipIdx_map, List.map_map]
+  apply List.map_congr_left
+  rintro ⟨p, k⟩ _
+  simp only [Function.comp, Prod.map, id, nodeOf]
+  cases (r.nodes[p]?.getD default).explicit <;> simp
+
+private theorem rank_lt (r : Rule) (v : Nat) (hv : v < r.nodes.length) :
+    rank (sortedPositions (r.nodes.map (·.key))) v < r.nodes.length := by
+  have hex : ∃ x ∈ sortedPositions (r.nodes.map (·.key)), (x == v) = true :=
+    ⟨v, (mem_sortedPositions _ v).2 (by simpa using hv), by simp⟩
+  have := List.findIdx_lt_length_of_exists hex
+  rw [sortedPositions_length, List.length_map] at this
+  exact this
+
+private theorem mkEdges_toJson (fresh : Nat → String) (r : Rule) (hv : Valid r) :
+    ((toJson r).edges.zipIdx).mapM (mkEdge fresh r.nodes.length) =
+      some (((sortedPositions (r.edges.map (·.key))).zipIdx).map (edgeOf fresh r)) := by
+  rw [toJson_edges, List.zipIdx_map]
+  apply mapM_map_map_some
+  rintro ⟨p, k⟩ hpk
+  have hp : p < r.edges.length := by
+    have := List.mem_of_getElem? (List.mem_zipIdx_iff_getElem?.1 hpk)
+    simpa using (mem_sortedPositions _ p).1 this
+  have he : r.edges[p] ∈ r.edges := List.getElem_mem hp
+  have hatt : (List.map (fun v => (rank (sortedPositions (r.nodes.map (·.key))) v : Int))
+        r.edges[p].att).mapM (index? r.nodes.length) =
+      some (r.edges[p].att.map (rank (sortedPositions (r.nodes.map (·.key))))) := by
+    have := mapM_index_cast r.nodes.length
+      (r.edges[p].att.map (rank (sortedPositions (r.nodes.map (·.key))))) (by
+        intro w hw
+        obtain ⟨v, hv', rfl⟩ := List.mem_map.1 hw
+        exact rank_lt r v (hv.att _ he v hv'))
+    rw [List.map_map] at this
+    exact this
+  simp only [Prod.map, id, List.getElem?_eq_getElem hp, Option.getD_some, edgeOf]
+  rw [mkEdge_att_some fresh _ _ _ _ hatt]
+  cases r.edges[p].explicit <;> simp
+
+
+/-! ### helpers: the reader followed by the writer on sorted, fully explicit JSON -/
+
+private theorem mapM_index_some (n : Nat) (l : List Int) (att : List Nat)
+    (h : l.mapM (index? n) = some att) :
+    att.map (fun (v : Nat) => (v : Int)) = l ∧ ∀ a ∈ att, a < n := by
+  have := mapM_eq_some _ _ _ h
+  clear h
+  induction this with
+  | nil => simp
+  | cons hab _ ih =>
+    obtain ⟨h1, h2⟩ := index?_some _ _ _ hab
+    simp [h1, h2, ih.1]
+    exact ih.2
+
+private theorem map_rank_range (n : Nat) (att : List Nat) (h : ∀ a ∈ att, a < n) :
+    att.map (fun v => (rank (List.range n) v : Int)) = att.map (fun (v : Nat) => (v : Int)) := by
+  apply List.map_congr_left
+  intro a ha
+  rw [rank_range n a (h a ha)]
+
+private theorem edges_spec (fresh : Nat → String) (n : Nat) (l : List JEdge) (edges : List REdge)
+    (heid : ∀ e ∈ l, ∃ s, e.id = some s)
+    (hE : (l.zipIdx).mapM (mkEdge fresh n) = some edges) :
+    edges.length = l.length ∧ ∀ i (h : i < l.length) (h' : i < edges.length),
+      ∃ s att, l[i].id = some s ∧ edges[i] = ⟨l[i].label, att, s, true⟩ ∧
+        att.map (fun (v : Nat) => (v : Int)) = l[i].att ∧ ∀ a ∈ att, a < n := by
+  obtain ⟨hlen, hget⟩ := List.forall₂_iff_get.1 (mapM_eq_some _ _ _ hE)
+  rw [List.length_zipIdx] at hlen
+  refine ⟨hlen.symm, ?_⟩
+  intro i h h'
+  have hi := hget i (by simpa using h) h'
+  simp only [List.get_eq_getElem, List.getElem_zipIdx, Nat.zero_add] at hi
+  obtain ⟨s, hs⟩ := heid _ (List.getElem_mem h)
+  cases hatt : l[i].att.mapM (index? n) with
+  | none => rw [mkEdge_att_none fresh n _ _ hatt] at hi; cases hi
+  | some att =>
+    rw [mkEdge_att_some fresh n _ _ att hatt, hs] at hi
+    obtain ⟨h1, h2⟩ := mapM_index_some n _ att hatt
+    exact ⟨s, att, hs, (Option.some.inj hi).symm, h1, h2⟩
+
+private theorem JRule_ext (a b : JRule) (h1 : a.lhs = b.lhs) (h2 : a.nodes = b.nodes)
+    (h3 : a.edges = b.edges) (h4 : a.ext = b.ext) : a = b := by
+  cases a; cases b; simp_all
+
+private theorem toJson_fromJson_of_sorted (fresh : Nat → String) (j : JRule) (r' : Rule)
+    (hnid : ∀ n ∈ j.nodes, ∃ s, n.id = some s) (heid : ∀ e ∈ j.edges, ∃ s, e.id = some s)
+    (hns : (j.nodes.map (fun n => n.id.getD "")).Pairwise (fun a b => keyLe a b = true))
+    (hes : (j.edges.map (fun e => e.id.getD "")).Pairwise (fun a b => keyLe a b = true))
+    (h : fromJson fresh j = some r') : toJson r' = j := by
+  obtain ⟨_, edges, hE, _, ext, hX, rfl⟩ := (fromJson_some_iff fresh j r').1 h
+  have hnodes : mkNodes fresh j = j.nodes.map (fun n => (⟨n.label, n.id.getD "", true⟩ : RNode)) := by
+    unfold mkNodes
+    conv_rhs => rw [← List.zipIdx_map_fst 0 j.nodes, List.map_map]
+    apply List.map_congr_left
+    rintro ⟨n, k⟩ hnk
+    obtain ⟨s, hs⟩ := hnid n (List.mem_of_getElem? (List.mem_zipIdx_iff_getElem?.1 hnk))
+    simp [hs]
+  have hNlen : (mkNodes fresh j).length = j.nodes.length := mkNodes_length fresh j
+  obtain ⟨hElen, hEspec⟩ := edges_spec fresh _ j.edges edges heid hE
+  obtain ⟨hX1, hX2⟩ := mapM_index_some _ _ _ hX
+  have hordN : sortedPositions ((mkNodes fresh j).map (·.key)) = List.range (mkNodes fresh j).length := by
+    have := sortedPositions_of_pairwise ((mkNodes fresh j).map (·.key)) (by
+      rw [hnodes, List.map_map]; exact hns)
+    simpa using this
+  have hEkeys : edges.map (·.key) = j.edges.map (fun e => e.id.getD "") := by
+    apply List.ext_getElem
+    · simp [hElen]
+    · intro i h1 h2
+      simp at h1 h2
+      obtain ⟨s, att, hs, he, _, _⟩ := hEspec i h2 h1
+      simp [he, hs]
+  have hordE : sortedPositions (edges.map (·.key)) = List.range edges.length := by
+    have := sortedPositions_of_pairwise (edges.map (·.key)) (by rw [hEkeys]; exact hes)
+    simpa using this
+  apply JRule_ext
+  · rfl
+  · rw [toJson_nodes]
+    simp only [hordN]
+    rw [map_range_getD (mkNodes fresh j) default
+      (fun nd => (⟨nd.label, if nd.explicit then some nd.key else none⟩ : JNode)), hnodes, List.map_map]
+    conv_rhs => rw [← List.map_id j.nodes]
+    apply List.map_congr_left
+    intro n hn
+    obtain ⟨s, hs⟩ := hnid n hn
+    cases n
+    simp_all
+  · rw [toJson_edges]
+    simp only [hordN, hordE]
+    rw [map_range_getD edges default
+      (fun e => (⟨e.att.map (fun v => (rank (List.range (mkNodes fresh j).length) v : Int)), e.label,
+        if e.explicit then some e.key else none⟩ : JEdge))]
+    apply List.ext_getElem
+    · simp [hElen]
+    · intro i h1 h2
+      simp at h1
+      obtain ⟨s, att, hs, he, ha1, ha2⟩ := hEspec i h2 h1
+      rw [List.getElem_map, he]
+      simp only [if_true]
+      rw [map_rank_range _ att ha2, ha1, ← hs]
+  · rw [toJson_ext]
+    simp only [hordN]
+    rw [map_rank_range _ ext hX2, hX1]
+
+/-- the sort order is a permutation of the positions, and `rank` inverts it -/
+theorem sortedPositions_perm (keys : List String) :
+    (sortedPositions keys).Perm (List.range keys.length) :=
+  List.mergeSort_perm _ _
+
+theorem rank_sortedPositions (keys : List String) (v : Nat) (hv : v < keys.length) :
+    rank (sortedPositions keys) v < keys.length ∧
+    (sortedPositions keys)[rank (sortedPositions keys) v]? = some v := by
+  have hex : ∃ x ∈ sortedPositions keys, (x == v) = true :=
+    ⟨v, (mem_sortedPositions keys v).2 hv, by simp⟩
+  have hlt : rank (sortedPositions keys) v < (sortedPositions keys).length :=
+    List.findIdx_lt_length_of_exists hex
+  refine ⟨by simpa [sortedPositions_length] using hlt, ?_⟩
+  rw [List.getElem?_eq_getElem hlt]
+  have := List.findIdx_getElem (p := (· == v)) (xs := sortedPositions keys) (w := hlt)
+  exact congrArg some (beq_iff_eq.1 this)
+
+/-- **round trip**: reading back what was written succeeds and yields the rule with its nodes and edges
+listed in `str(id)` order — same lhs, node labels, explicit ids preserved, implicit ones fresh, every edge
+with its label and its attachment nodes (in order) mapped through the permutation, externals likewise -/
+theorem fromJson_toJson (fresh : Nat → String) (r : Rule) (hv : Valid r) (hf : FreshOk fresh r) :
+    ∃ r', fromJson fresh (toJson r) = some r' ∧
+      r'.lhs = r.lhs ∧
+      r'.nodes.length = r.nodes.length ∧ r'.edges.length = r.edges.length ∧
+      (∀ k (hk : k < r'.nodes.length), ∃ n ∈ r.nodes,
+          r.nodes[(sortedPositions (r.nodes.map (·.key)))[k]?.getD 0]? = some n ∧
+          r'.nodes[k].label = n.label ∧ r'.nodes[k].explicit = n.explicit ∧
+          (n.explicit = true → r'.nodes[k].key = n.key)) ∧
+      (∀ k (hk : k < r'.edges.length), ∃ e ∈ r.edges,
+          r.edges[(sortedPositions (r.edges.map (·.key)))[k]?.getD 0]? = some e ∧
+          r'.edges[k].label = e.label ∧ r'.edges[k].explicit = e.explicit ∧
+          (e.explicit = true → r'.edges[k].key = e.key) ∧
+          r'.edges[k].att = e.att.map (rank (sortedPositions (r.nodes.map (·.key))))) ∧
+      r'.ext = r.ext.map (rank (sortedPositions (r.nodes.map (·.key)))) := by
+  have hlen : (mkNodes fresh (toJson r)).length = r.nodes.length := by
+    rw [mkNodes_length, toJson_nodes_length]
+  refine ⟨⟨r.lhs, ((sortedPositions (r.nodes.map (·.key))).zipIdx).map (nodeOf fresh r),
+      ((sortedPositions (r.edges.map (·.key))).zipIdx).map (edgeOf fresh r),
+      r.ext.map (rank (sortedPositions (r.nodes.map (·.key))))⟩, ?_, rfl, ?_, ?_, ?_, ?_, rfl⟩
+  · -- the reader succeeds
+    rw [fromJson_some_iff]
+    refine ⟨?_, ((sortedPositions (r.edges.map (·.key))).zipIdx).map (edgeOf fresh r), ?_, ?_,
+      r.ext.map (rank (sortedPositions (r.nodes.map (·.key)))), ?_, ?_⟩
+    · -- node ids are distinct
+      have := nodup_fresh_keys r.nodes default (·.key) (·.explicit)
+        (sortedPositions (r.nodes.map (·.key))) (sortedPositions_nodup _)
+        (fun p hp => by simpa using (mem_sortedPositions _ p).1 hp)
+        fresh 0 hf.inj hf.notNode hv.nodeKeys
+      rw [mkNodes_toJson, List.map_map]
+      have e : List.map ((fun x => x.key) ∘ nodeOf fresh r)
+            (sortedPositions (r.nodes.map (·.key))).zipIdx =
+          List.map (fun x => if (r.nodes[x.1]?.getD default).explicit = true
+              then (r.nodes[x.1]?.getD default).key else fresh (0 + x.2))
+            (sortedPositions (r.nodes.map (·.key))).zipIdx :=
+        List.map_congr_left (by rintro ⟨p, k⟩ _; simp [nodeOf])
+      rw [e]; exact this
+    · rw [hlen]; exact mkEdges_toJson fresh r hv
+    · -- edge ids are distinct
+      have := nodup_fresh_keys r.edges default (·.key) (·.explicit)
+        (sortedPositions (r.edges.map (·.key))) (sortedPositions_nodup _)
+        (fun p hp => by simpa using (mem_sortedPositions _ p).1 hp)
+        fresh r.nodes.length hf.inj hf.notEdge hv.edgeKeys
+      rw [List.map_map]
+      have e : List.map ((fun x => x.key) ∘ edgeOf fresh r)
+            (sortedPositions (r.edges.map (·.key))).zipIdx =
+          List.map (fun x => if (r.edges[x.1]?.getD default).explicit = true
+              then (r.edges[x.1]?.getD default).key else fresh (r.nodes.length + x.2))
+            (sortedPositions (r.edges.map (·.key))).zipIdx :=
+        List.map_congr_left (by rintro ⟨p, k⟩ _; simp [edgeOf])
+      rw [e]; exact this
+    · rw [hlen, toJson_ext]
+      have := mapM_index_cast r.nodes.length
+        (r.ext.map (rank (sortedPositions (r.nodes.map (·.key))))) (by
+          intro w hw
+          obtain ⟨v, hv', rfl⟩ := List.mem_map.1 hw
+          exact rank_lt r v (hv.ext v hv'))
+      rw [List.map_map] at this
+      exact this
+    · rw [mkNodes_toJson]; rfl
+  · simp [sortedPositions_length]
+  · simp [sortedPositions_length]
+  · intro k hk
+    have hk' : k < (sortedPositions (r.nodes.map (·.key))).length := by simpa using hk
+    have hp : (sortedPositions (r.nodes.map (·.key)))[k] < r.nodes.length := by
+      simpa using (mem_sortedPositions _ _).1 (List.getElem_mem hk')
+    refine ⟨r.nodes[(sortedPositions (r.nodes.map (·.key)))[k]], List.getElem_mem hp, ?_, ?_⟩
+    · simp [List.getElem?_eq_getElem hk', List.getElem?_eq_getElem hp]
+    · simp only [List.getElem_map, List.getElem_zipIdx, nodeOf, List.getElem?_eq_getElem hp,
+        Option.getD_some, true_and]
+      intro h; simp [h]
+  · intro k hk
+    have hk' : k < (sortedPositions (r.edges.map (·.key))).length := by simpa using hk
+    have hp : (sortedPositions (r.edges.map (·.key)))[k] < r.edges.length := by
+      simpa using (mem_sortedPositions _ _).1 (List.getElem_mem hk')
+    refine ⟨r.edges[(sortedPositions (r.edges.map (·.key)))[k]], List.getElem_mem hp, ?_, ?_⟩
+    · simp [List.getElem?_eq_getElem hk', List.getElem?_eq_getElem hp]
+    · simp only [List.getElem_map, List.getElem_zipIdx, edgeOf, List.getElem?_eq_getElem hp,
+        Option.getD_some, true_and, and_true]
+      intro h; simp [h]
+
+/-- **idempotence**: when every id is explicit, a second round trip reproduces the JSON verbatim -/
+theorem toJson_fromJson_toJson (fresh : Nat → String) (r : Rule) (hv : Valid r)
+    (hn : ∀ n ∈ r.nodes, n.explicit = true) (he : ∀ e ∈ r.edges, e.explicit = true)
+    (r' : Rule) (h : fromJson fresh (toJson r) = some r') : toJson r' = toJson r := by
+  have hnp : ∀ p ∈ sortedPositions (r.nodes.map (·.key)), ∃ hp : p < r.nodes.length,
+      r.nodes[p]?.getD default = r.nodes[p] ∧ r.nodes[p].explicit = true := by
+    intro p hp
+    have hp' : p < r.nodes.length := by simpa using (mem_sortedPositions _ p).1 hp
+    exact ⟨hp', by simp [hp'], hn _ (List.getElem_mem hp')⟩
+  have hep : ∀ p ∈ sortedPositions (r.edges.map (·.key)), ∃ hp : p < r.edges.length,
+      r.edges[p]?.getD default = r.edges[p] ∧ r.edges[p].explicit = true := by
+    intro p hp
+    have hp' : p < r.edges.length := by simpa using (mem_sortedPositions _ p).1 hp
+    exact ⟨hp', by simp [hp'], he _ (List.getElem_mem hp')⟩
+  apply toJson_fromJson_of_sorted fresh (toJson r) r' ?_ ?_ ?_ ?_ h
+  · intro n hn'
+    rw [toJson_nodes] at hn'
+    obtain ⟨p, hp, rfl⟩ := List.mem_map.1 hn'
+    obtain ⟨hp', h1, h2⟩ := hnp p hp
+    exact ⟨r.nodes[p].key, by simp [h1, h2]⟩
+  · intro e he'
+    rw [toJson_edges] at he'
+    obtain ⟨p, hp, rfl⟩ := List.mem_map.1 he'
+    obtain ⟨hp', h1, h2⟩ := hep p hp
+    exact ⟨r.edges[p].key, by simp [h1, h2]⟩
+  · have e : (toJson r).nodes.map (fun n => n.id.getD "") =
+        (sortedPositions (r.nodes.map (·.key))).map
+          (fun p => (r.nodes.map (·.key))[p]?.getD "") := by
+      rw [toJson_nodes, List.map_map]
+      apply List.map_congr_left
+      intro p hp
+      obtain ⟨hp', h1, h2⟩ := hnp p hp
+      simp [h1, h2, hp']
+    rw [e, List.pairwise_map]
+    exact sortedPositions_pairwise _
+  · have e : (toJson r).edges.map (fun n => n.id.getD "") =
+        (sortedPositions (r.edges.map (·.key))).map
+          (fun p => (r.edges.map (·.key))[p]?.getD "") := by
+      rw [toJson_edges, List.map_map]
+      apply List.map_congr_left
+      intro p hp
+      obtain ⟨hp', h1, h2⟩ := hep p hp
+      simp [h1, h2, hp']
+    rw [e, List.pairwise_map]
+    exact sortedPositions_pairwise _
+
+/-- **rejection**: an attachment number that is negative or not below the number of nodes is a ValueError -/
+theorem fromJson_rejects_attachment (fresh : Nat → String) (j : JRule) (e : JEdge) (he : e ∈ j.edges)
+    (vi : Int) (hvi : vi ∈ e.att) (hbad : vi < 0 ∨ (j.nodes.length : Int) ≤ vi) :
+    fromJson fresh j = none := by
+  cases h : fromJson fresh j with
+  | none => rfl
+  | some r' =>
+    exfalso
+    obtain ⟨_, edges, hE, _⟩ := (fromJson_some_iff fresh j r').1 h
+    obtain ⟨k, hk⟩ := mem_zipIdx_of_mem j.edges e he
+    rw [mkNodes_length] at hE
+    have hatt : e.att.mapM (index? j.nodes.length) = none :=
+      mapM_none_of_mem _ _ vi hvi (index?_none _ _ hbad)
+    rw [mapM_none_of_mem _ _ (e, k) hk (mkEdge_att_none fresh _ e k hatt)] at hE
+    cases hE
+
+/-- … and so is such an external node number -/
+theorem fromJson_rejects_external (fresh : Nat → String) (j : JRule)
+    (vi : Int) (hvi : vi ∈ j.ext) (hbad : vi < 0 ∨ (j.nodes.length : Int) ≤ vi) :
+    fromJson fresh j = none := by
+  cases h : fromJson fresh j with
+  | none => rfl
+  | some r' =>
+    exfalso
+    obtain ⟨_, edges, _, _, ext, hX, _⟩ := (fromJson_some_iff fresh j r').1 h
+    rw [mkNodes_length, mapM_none_of_mem _ _ vi hvi (index?_none _ _ hbad)] at hX
+    cases hX
+
+/-- non-vacuity: a concrete rule with mixed ids whose string order differs from numeric order -/
+example : toJson ⟨"X", [⟨"A", "10", true⟩, ⟨"B", "9", true⟩, ⟨"A", "140001", false⟩],
+                  [⟨"t", [0, 2], "e", true⟩], [1]⟩
+    = ⟨"X", [⟨"A", some "10"⟩, ⟨"A", none⟩, ⟨"B", some "9"⟩], [⟨[0, 1], "t", some "e"⟩], [2]⟩ := by
+  simp [toJson, rank, sortedPositions, List.mergeSort, List.range, List.range.loop,
+    List.MergeSort.Internal.splitInTwo, keyLe, List.findIdx_cons, -String.lt_iff_ltb]
+
+end C14
